@@ -138,7 +138,7 @@ fn main() {
 				orch::Tier::Quick => "3",
 				orch::Tier::Thorough => "4",
 			};
-			let out = std::process::Command::new("/verif/loomleg/run.sh").arg(bound).output();
+			let out = std::process::Command::new(orch::verif_root().join("loomleg/run.sh")).arg(bound).output();
 			match out {
 				Err(e) => {
 					cov.insert("loom_leg".into(), serde_json::json!(format!("not run: {e}")));
